@@ -10,14 +10,13 @@
        completion, so the exact sequential correspondence check validates the very
        step function the interleaving theorems are about.
 
-   variant Defective = the algorithm as written in /repo today
-           (publish with LoadOrStore, then count, then roll back with an
-            unconditional Delete; UnregisterSeries: Load, unconditional Delete,
-            unconditional seriesCount.Add(-1));
-   variant Repaired  = fixes/C20_series_accounting.patch
-           (reserve the slot with seriesCount.Add(1) BEFORE publishing, release it
-            when LoadOrStore loses; UnregisterSeries uses CompareAndDelete and only
-            the winner decrements).
+   variant Repaired  = what /repo HEAD does (since commit 36aca6a): reserve the slot with seriesCount.Add(1) BEFORE
+           publishing with LoadOrStore, release it when LoadOrStore loses; UnregisterSeries uses CompareAndDelete and only
+           the winner decrements.
+   variant Defective = the algorithm /repo had BEFORE 36aca6a (historical; kept for the _refuted witnesses only):
+           publish with LoadOrStore, then count, then roll back with an unconditional Delete; UnregisterSeries: Load,
+           unconditional Delete, unconditional seriesCount.Add(-1).
+   variant LoadAndDel = seeded change C20_n2 (witness only).
    Single-threaded, both variants give identical results. *)
 From OV Require Import Common.Base.
 Open Scope Z_scope.
@@ -459,10 +458,10 @@ Definition sub_unsub (b : sub) : sub :=
                                         stored -> return c
    Metrics are never removed from the registry.  A schema is the list of label names; the harness uses
    l0..l(n-1), so a schema is its length.
-   variant Defective = the code as written: in the loaded branch of LoadOrStore `actual.(ptr Counter)` is an
-   unchecked type assertion, which PANICS when another goroutine registered the same name with a different
-   metric type in between.  variant Repaired = fixes/C20_register_type_race.patch: the loaded branch does the
-   same metricType() check as the Load branch and returns ErrTypeMismatch. *)
+   variant Repaired = /repo HEAD (since commit efcd108): the loaded branch does the same metricType() check as the
+   Load branch and returns ErrTypeMismatch.  variant Defective = the code before efcd108 (historical, witness only): in the
+   loaded branch of LoadOrStore `actual.(ptr Counter)` was an unchecked type assertion, which PANICKED when another
+   goroutine registered the same name with a different metric type in between. *)
 Record ropts := { ro_name : N; ro_kind : kind; ro_nl : nat }.
 Record robj := { rb_kind : kind; rb_nl : nat }.
 Record rshared := { rmap : list (N * nat);     (* Registry.metrics: name -> metric object id *)
